@@ -465,7 +465,7 @@ theorem rewrite303_hdrs (st : Nat) (method : Str) (body : Option Bytes) (H : Hdr
 /-- invariant of the arguments `PoolManager.urlopen` threads through its recursion: the carrier is
 well-formed and the strip set of the policy in force is `R` -/
 def HdrInv (m : Mgr) (redirect : Bool) (R : List Str) (kw : Kw) : Prop :=
-  (kw.headers.getD m.headers).WF ∧ (deriveRetry kw.retries redirect .none).removeHeadersOnRedirect = R
+  (kw.headers.getD m.headers).WF ∧ (deriveRetry kw.retries redirect m.retries).removeHeadersOnRedirect = R
 
 /-- what the next pass gets as `headers=` -/
 theorem MgrNext.next_headers {W : World} {m : Mgr} {method url : Str} {redirect : Bool} {kw : Kw}
@@ -474,7 +474,7 @@ theorem MgrNext.next_headers {W : World} {m : Mgr} {method url : Str} {redirect 
     ∃ X, X = (if Gen.Redirect.methodRewriteStatuses.contains N.s.reply.status
           then methodChange (mgrHeaders m N.u kw) else mgrHeaders m N.u kw) ∧ X.WF ∧
       kw'.headers = some (if N.same then X
-        else strip (deriveRetry kw.retries redirect .none).removeHeadersOnRedirect X) := by
+        else strip (deriveRetry kw.retries redirect m.retries).removeHeadersOnRedirect X) := by
   refine ⟨_, rfl, ?_, ?_⟩
   · split
     · exact methodChange_wf _ (mgrHeaders_wf m N.u kw hw)
@@ -501,7 +501,7 @@ theorem MgrNext.next_keys {W : World} {m : Mgr} {method url : Str} {redirect : B
     ∀ k ∈ (kw'.headers.getD m.headers).keys,
       (k ∈ (kw.headers.getD m.headers).keys ∨ k ∈ injected m) ∧
       (N.same = false →
-        (deriveRetry kw.retries redirect .none).removeHeadersOnRedirect.contains (lower k) = false) ∧
+        (deriveRetry kw.retries redirect m.retries).removeHeadersOnRedirect.contains (lower k) = false) ∧
       (Gen.Redirect.methodRewriteStatuses.contains N.s.reply.status = true →
         lower k ∉ contentSpecific.map lower) := by
   obtain ⟨X, hXdef, hX, hk⟩ := N.next_headers hw
@@ -509,7 +509,7 @@ theorem MgrNext.next_keys {W : World} {m : Mgr} {method url : Str} {redirect : B
   rw [hk] at hkk
   simp only [Option.getD_some] at hkk
   have hmem : k ∈ X.keys ∧ (N.same = false →
-      (deriveRetry kw.retries redirect .none).removeHeadersOnRedirect.contains (lower k) = false) := by
+      (deriveRetry kw.retries redirect m.retries).removeHeadersOnRedirect.contains (lower k) = false) := by
     cases hs : N.same with
     | true => rw [hs] at hkk; exact ⟨hkk, fun h => by cases h⟩
     | false =>
@@ -552,10 +552,10 @@ theorem MgrPass.clean {W : World} {m : Mgr} {method url : Str} {kw : Kw} {s : Se
 
 /-- a hop that `PoolManager.urlopen` must judge cross-host: the URLs of the two requests name
 different origins, the pool consulted is the current origin's own (no forwarding proxy) and the
-target is not scheme-relative -/
+target names a host at all (it is not a bare path `/…`; a scheme-relative `//host/…` does name one) -/
 def Crossing (W : World) (m : Mgr) (a b : Sent) : Prop :=
   ∃ ua ub, W.parse a.url = some ua ∧ W.parse b.url = some ub ∧ urlOrigin ua ≠ urlOrigin ub ∧
-    (m.proxy = none ∨ ua.scheme = some sHttps) ∧ startsWithSlash b.url = false
+    (m.proxy = none ∨ ua.scheme = some sHttps) ∧ pathOnly b.url = false
 
 /-- **chain invariant of the strip loop** (manager level) -/
 theorem mgr_stripped (W : World) (m : Mgr) (redirect : Bool) (R : List Str) (hR : R.map lower = R)
@@ -825,7 +825,7 @@ theorem MgrNext.lines_noproxy {W : World} {m : Mgr} {method url : Str} {redirect
     {log : List Sent} {m' u' : Str} {kw' : Kw} (N : MgrNext W m method url redirect kw log m' u' kw')
     (hp : m.proxy = none) (hw : (kw.headers.getD m.headers).WF) {b : Sent} (hb : MgrPass W m m' u' kw' b) :
     N.s.headers = (kw.headers.getD m.headers).items ∧
-    b.headers = nextLines (deriveRetry kw.retries redirect .none).removeHeadersOnRedirect N.s.reply.status
+    b.headers = nextLines (deriveRetry kw.retries redirect m.retries).removeHeadersOnRedirect N.s.reply.status
       N.same (kw.headers.getD m.headers) := by
   have ha := N.pass.headers_noproxy hp hw
   refine ⟨ha, ?_⟩
